@@ -3,6 +3,9 @@
   context body parser (`parseContextHunk`, `hunkFromContextParts`, `parseContextBody`) run on those lines
   (helper lemmas for C13, context half).  A line of text is a `Line`: its content and the terminator it is written with
   (LF, or CR LF for a hunk line that came with CR LF — `lineEnd`).
+  The text form of a hunk line is its wire form (`wireOf`, `Unified.wire`): a line without newline whose content ends in CR
+  stands in the text as a CR LF terminated line followed by the marker, and the marker (`mark_as_unterminated`) gives the
+  CR back; so the chain is stated for `Unified.writableCR` hunks (`Unified.okLine`), `writable` ones being a special case.
 -/
 import PatchModel.Spec.Diff
 import PatchModel.Lemmas.Cpp
@@ -50,8 +53,9 @@ theorem starsLine_eq : starsLine = starsText ++ [NL] := by
 /-- a byte string that survives being written as `t LF` (or `t CR LF`) and read back -/
 def PlainText (t : Bytes) : Prop := NL ∉ t ∧ t.getLast? ≠ some CR
 
-/-- a line of text: plain content, terminated by LF or CR LF -/
-def PlainL (l : Line) : Prop := PlainText l.content ∧ l.newline ≠ .none
+/-- a line of text that `splitLines` gives back as it is: no LF inside, terminated by LF or CR LF, and no CR at the end of
+    the content of a line terminated by LF (it would be read as part of a CR LF) -/
+def PlainL (l : Line) : Prop := NL ∉ l.content ∧ l.newline ≠ .none ∧ (l.newline = .lf → l.content.getLast? ≠ some CR)
 
 /-- the bytes of a list of lines, each written with its own terminator -/
 def unlines (ls : List Line) : Bytes := ls.flatMap fun l => l.content ++ lineEnd l
@@ -67,27 +71,56 @@ def lfLine (c : Bytes) : Line := ⟨c, .lf⟩
 
 theorem lineEnd_lfLine (c : Bytes) : lineEnd (lfLine c) = [NL] := rfl
 
-theorem plainL_lf {t : Bytes} (h : PlainText t) : PlainL (lfLine t) := ⟨h, by simp [lfLine]⟩
+theorem plainL_lf {t : Bytes} (h : PlainText t) : PlainL (lfLine t) := ⟨h.1, by simp [lfLine], fun _ => h.2⟩
 
 /-- text made of plain lines is read back as those lines, terminator classes included -/
 theorem splitLines_unlines (ls : List Line) (h : ∀ l ∈ ls, PlainL l) : splitLines (unlines ls) = ls := by
   induction ls with
   | nil => simp [splitLines, splitLinesGo]
   | cons l ls ih =>
-    obtain ⟨⟨h1, h2⟩, h3⟩ := h l (by simp)
-    rw [unlines_cons, Unified.splitLines_wire _ _ _ h1 h2, Unified.wireNl_of_ne_none h3,
+    obtain ⟨h1, h3, h2⟩ := h l (by simp)
+    have h2' : l.newline ≠ .crlf → l.content.getLast? ≠ some CR := by
+      intro hc; apply h2
+      rcases l with ⟨c, nl⟩
+      cases nl
+      · rfl
+      · exact absurd rfl hc
+      · exact absurd rfl h3
+    rw [unlines_cons, Unified.splitLines_wire' _ _ _ h1 h2', Unified.wireNl_of_ne_none h3,
       ih (fun l' hl' => h l' (by simp [hl']))]
 
 /-! ### the writer's output as text lines -/
 
 def halfText (l : PatchLine) : Bytes := l.op :: SP :: l.line.content
 
-/-- a line of a half as a line of text: a line that came with CR LF is written with CR LF -/
-def halfLine (l : PatchLine) : Line := ⟨halfText l, Unified.wireNl l.line⟩
+/-- a line as the parser reads it back, before the missing-newline marker is looked at: a line that came with CR LF is
+    written with CR LF; a line without newline is written with LF (and the marker after it), so that a CR its content ends
+    in stands in the text as part of a CR LF terminator (`Unified.wire`) -/
+def wireOf (l : PatchLine) : PatchLine := ⟨l.op, Unified.wire l.line⟩
 
-theorem lineEnd_halfLine (l : PatchLine) : lineEnd (halfLine l) = lineEnd l.line := by
+/-- a line of a half as a line of text -/
+def halfLine (l : PatchLine) : Line := ⟨halfText (wireOf l), (wireOf l).line.newline⟩
+
+theorem halfLine_newline_ne_none (l : PatchLine) : (halfLine l).newline ≠ .none := (Unified.wireOK_wire l.line).1
+
+/-- (replaces `lineEnd_halfLine : lineEnd (halfLine l) = lineEnd l.line`, which no longer holds for a line without newline
+    that ends in CR: the bytes are the same, the split into content and terminator is not) -/
+theorem halfLine_bytes (l : PatchLine) :
+    (halfLine l).content ++ lineEnd (halfLine l) = [l.op, SP] ++ l.line.content ++ lineEnd l.line := by
   rcases l with ⟨op, ⟨c, nl⟩⟩
-  cases nl <;> rfl
+  cases nl with
+  | lf => rfl
+  | crlf => rfl
+  | none =>
+    simp only [halfLine, wireOf, halfText, Unified.wire, if_true, lineEnd]
+    unfold mkLine
+    split
+    · next hc =>
+      have := Render.dropLast_append_of_getLast? c CR hc
+      simp only [if_true, List.cons_append, List.nil_append, List.cons.injEq, true_and]
+      calc c.dropLast ++ [CR, NL] = (c.dropLast ++ [CR]) ++ [NL] := by simp
+        _ = c ++ [NL] := by rw [this]
+    · simp
 
 def lastNone (ls : List PatchLine) : Bool :=
   match ls.getLast? with
@@ -118,8 +151,7 @@ theorem unlines_halfTexts (ls : List PatchLine) :
   unfold halfTexts lastNone
   rw [unlines_append]
   have h1 : unlines (ls.map halfLine) = ls.flatMap fun l => [l.op, SP] ++ l.line.content ++ lineEnd l.line := by
-    simp only [unlines, List.flatMap_map, lineEnd_halfLine]
-    simp [halfLine, halfText]
+    simp only [unlines, List.flatMap_map, halfLine_bytes]
   cases hl : ls.getLast? with
   | none =>
     have : ls = [] := by simpa using hl
@@ -217,34 +249,54 @@ theorem plain_markerText : PlainText markerText := by
 theorem plain_starsText : PlainText starsText := by
   constructor <;> decide
 
-theorem plain_halfText (l : PatchLine) (hop : l.op ≠ NL) (hp : plainLine l.line = true) : PlainText (halfText l) := by
-  unfold plainLine at hp
-  simp only [Bool.and_eq_true, Bool.not_eq_true', bne_iff_ne, ne_eq] at hp
+theorem plain_halfText (l : PatchLine) (hop : l.op ≠ NL) (hp : Unified.okLine l.line = true) : PlainL (halfLine l) := by
+  unfold Unified.okLine at hp
+  simp only [Bool.and_eq_true, Bool.not_eq_true', Bool.or_eq_true, bne_iff_ne, ne_eq] at hp
   obtain ⟨h1, h2⟩ := hp
   have h1' : NL ∉ l.line.content := by
     simpa using h1
-  constructor
-  · unfold halfText
+  have hsub : ∀ b ∈ (Unified.wire l.line).content, b ∈ l.line.content := by
+    unfold Unified.wire
+    split
+    · exact Render.mkLine_content_subset _
+    · exact fun b hb => hb
+  refine ⟨?_, halfLine_newline_ne_none l, ?_⟩
+  · show NL ∉ l.op :: SP :: (Unified.wire l.line).content
     intro h
     rcases List.mem_cons.mp h with h | h
     · exact hop h.symm
     · rcases List.mem_cons.mp h with h | h
       · revert h; decide
-      · exact h1' h
-  · unfold halfText
-    cases hc : l.line.content with
+      · exact h1' (hsub _ h)
+  · show (Unified.wire l.line).newline = .lf → (l.op :: SP :: (Unified.wire l.line).content).getLast? ≠ some CR
+    intro hlf
+    have hw : (Unified.wire l.line).content.getLast? ≠ some CR := by
+      unfold Unified.wire at hlf ⊢
+      split at hlf
+      · next hn =>
+        rw [if_pos hn]
+        unfold mkLine at hlf ⊢
+        split at hlf
+        · cases hlf
+        · next hc => rw [if_neg hc]; exact hc
+      · next hn =>
+        rw [if_neg hn]
+        rcases h2 with h | h
+        · exact absurd hlf h
+        · exact h
+    cases hc : (Unified.wire l.line).content with
     | nil => simp [SP, CR]
     | cons a as =>
-      rw [hc] at h2
-      simpa [List.getLast?_cons_cons] using h2
+      rw [hc] at hw
+      simpa [List.getLast?_cons_cons] using hw
 
-theorem plain_halfTexts (ls : List PatchLine) (hop : ∀ l ∈ ls, l.op ≠ NL) (hp : ∀ l ∈ ls, plainLine l.line = true) :
+theorem plain_halfTexts (ls : List PatchLine) (hop : ∀ l ∈ ls, l.op ≠ NL) (hp : ∀ l ∈ ls, Unified.okLine l.line = true) :
     ∀ t ∈ halfTexts ls, PlainL t := by
   intro t ht
   unfold halfTexts at ht
   rcases List.mem_append.mp ht with h | h
   · obtain ⟨l, hl, rfl⟩ := List.mem_map.mp h
-    exact ⟨plain_halfText l (hop l hl) (hp l hl), Unified.wireNl_ne_none _⟩
+    exact plain_halfText l (hop l hl) (hp l hl)
   · split at h
     · simp at h; subst h; exact plainL_lf plain_markerText
     · simp at h
@@ -636,19 +688,17 @@ theorem parseNewRange_half (l : PatchLine) (a b : Int) : ctxParseNewRange (halfT
 /-- the operation bytes of a context half -/
 def HalfOp (op : UInt8) : Prop := op = SP ∨ op = PLUS ∨ op = MINUS ∨ op = BANG
 
-/-- a line as the parser reads it back, before the missing-newline marker is looked at -/
-def wireOf (l : PatchLine) : PatchLine := ⟨l.op, ⟨l.line.content, Unified.wireNl l.line⟩⟩
-
 theorem appendLine_half (acc : List PatchLine) (l : PatchLine) (hop : HalfOp l.op) :
-    ctxAppendLine acc (halfText l) (Unified.wireNl l.line) = .ok (acc ++ [wireOf l]) := by
-  unfold ctxAppendLine halfText
+    ctxAppendLine acc (halfLine l).content (halfLine l).newline = .ok (acc ++ [wireOf l]) := by
+  unfold ctxAppendLine halfLine halfText
   simp only
   have h1 : (SP == MINUS) = false := by decide
   rw [h1]
-  have h2 : (l.op != SP && l.op != PLUS && l.op != MINUS && l.op != BANG) = false := by
+  have h2 : ((wireOf l).op != SP && (wireOf l).op != PLUS && (wireOf l).op != MINUS && (wireOf l).op != BANG) = false := by
+    show (l.op != SP && l.op != PLUS && l.op != MINUS && l.op != BANG) = false
     rcases hop with h | h | h | h <;> rw [h] <;> decide
   rw [h2]
-  simp [wireOf]
+  simp
 
 theorem appendContent_half (ts : List PatchLine) (hops : ∀ l ∈ ts, HalfOp l.op) :
     ∀ (fuel : Nat) (acc : List PatchLine) (tail : List Line) (n : Nat) (startL endL : Int),
@@ -671,11 +721,9 @@ theorem appendContent_half (ts : List PatchLine) (hops : ∀ l ∈ ts, HalfOp l.
       simp only [List.length_cons] at he hf
       rw [ctxAppendContent, if_pos (by omega)]
       simp only [List.map_cons, List.cons_append]
-      rw [getLine_plain _ (Unified.wireNl_ne_none _)]
+      rw [getLine_plain _ (halfLine_newline_ne_none _)]
       simp only
-      have e1 : (halfLine t).content = halfText t := rfl
-      have e2 : (halfLine t).newline = Unified.wireNl t.line := rfl
-      rw [e1, e2, appendLine_half acc t (hops t (by simp))]
+      rw [appendLine_half acc t (hops t (by simp))]
       simp only
       rw [ih (fun l hl => hops l (by simp [hl])) fuel (acc ++ [wireOf t]) tail (n + 1) startL endL (by omega)
         (by simp only [List.length_append, List.length_singleton]; omega)]
@@ -862,8 +910,8 @@ theorem parseHunk_both (NR : NumberRoundtrip) (pre : List Line) (hpre : pre = []
   generalize hF : (mkPar (pre ++ lfLine (oldRangeText oR) :: halfLine o1 :: X) n).s.rest.length = F
   have hF' : (pre ++ lfLine (oldRangeText oR) :: halfLine o1 :: X).length = F := hF
   obtain ⟨k1, h1⟩ := skip_pre NR pre hpre oR hoR F (halfLine o1 :: X) n 0 0
-  have h2 := getLine_plain (halfLine o1) (Unified.wireNl_ne_none _) X k1
-  have h3 := parseNewRange_half o1 0 0
+  have h2 := getLine_plain (halfLine o1) (halfLine_newline_ne_none _) X k1
+  have h3 := parseNewRange_half (wireOf o1) 0 0
   have h4 := appendLine_half [] o1 (hoops o1 (by simp))
   subst hX
   obtain ⟨ols, par3, k2, h5, h6⟩ := read_half O' (fun l hl => hoops l (by simp [hl])) [o1] (lastNone (o1 :: O'))
@@ -873,8 +921,8 @@ theorem parseHunk_both (NR : NumberRoundtrip) (pre : List Line) (hpre : pre = []
     (by simp)
   have h7 := getLine_lf (newRangeText nR) (halfLine n1 :: Y) k2
   have h8 := parseNewRange_new NR nR hnR 0 0
-  have h9 := getLine_plain (halfLine n1) (Unified.wireNl_ne_none _) Y (k2 + 1)
-  have h11 := startsWith_half_stars10 n1.op n1.line.content
+  have h9 := getLine_plain (halfLine n1) (halfLine_newline_ne_none _) Y (k2 + 1)
+  have h11 := startsWith_half_stars10 n1.op (wireOf n1).line.content
   have h11' : isToFileLine (halfLine n1).content = true := by
     have hm := hnnm n1 (by simp)
     show ((n1.op == SP || n1.op == PLUS || n1.op == BANG) && SP == SP) = true
@@ -911,8 +959,8 @@ theorem parseHunk_newOmitted (NR : NumberRoundtrip) (pre : List Line) (hpre : pr
   generalize hF : (mkPar (pre ++ lfLine (oldRangeText oR) :: halfLine o1 :: X) n).s.rest.length = F
   have hF' : (pre ++ lfLine (oldRangeText oR) :: halfLine o1 :: X).length = F := hF
   obtain ⟨k1, h1⟩ := skip_pre NR pre hpre oR hoR F (halfLine o1 :: X) n 0 0
-  have h2 := getLine_plain (halfLine o1) (Unified.wireNl_ne_none _) X k1
-  have h3 := parseNewRange_half o1 0 0
+  have h2 := getLine_plain (halfLine o1) (halfLine_newline_ne_none _) X k1
+  have h3 := parseNewRange_half (wireOf o1) 0 0
   have h4 := appendLine_half [] o1 (hoops o1 (by simp))
   subst hX
   obtain ⟨ols, par3, k2, h5, h6⟩ := read_half O' (fun l hl => hoops l (by simp [hl])) [o1] (lastNone (o1 :: O'))
@@ -1249,8 +1297,11 @@ theorem noneOnlyLast_newOf (ls : List PatchLine) (h : noNlOnlyLast ls = true) : 
         · have : rest = [] := by simpa using h1
           subst this; exact hne rfl
 
+/-- (statement changed with the model, `mark_as_unterminated`: the CR of a CR LF terminator stays, as content; before:
+    `… = xs ++ [⟨x.op, ⟨x.line.content, .none⟩⟩]`) -/
 theorem markLastNone_concat (xs : List PatchLine) (x : PatchLine) :
-    markLastNone (xs ++ [x]) = xs ++ [⟨x.op, ⟨x.line.content, .none⟩⟩] := by
+    markLastNone (xs ++ [x]) =
+      xs ++ [⟨x.op, ⟨if x.line.newline = .crlf then x.line.content ++ [CR] else x.line.content, .none⟩⟩] := by
   simp [markLastNone]
 
 theorem markLastNone_cons_cons (a b : PatchLine) (r : List PatchLine) :
@@ -1265,18 +1316,26 @@ theorem lastNone_cons_cons (a b : PatchLine) (r : List PatchLine) : lastNone (a 
   simp [lastNone, List.getLast?_cons_cons]
 
 theorem wireOf_of_ne_none (t : PatchLine) (h : t.line.newline ≠ .none) : wireOf t = t := by
-  rcases t with ⟨op, ⟨c, nl⟩⟩
-  simp only [wireOf, Unified.wireNl_of_ne_none h]
+  rcases t with ⟨op, l⟩
+  simp only [wireOf, (Unified.wireOK_wire l).2.1 h]
 
 /-- the parser reads a half back as it was: every line with its terminator class, the marker on the last line kept -/
 theorem readBack_eq : ∀ (ts : List PatchLine), NoneOnlyLast (ts.map (·.line)) → readBack ts = ts
   | [], _ => by simp [readBack, lastNone]
   | [t], _ => by
     by_cases h : t.line.newline = .none
-    · rcases t with ⟨op, ⟨c, nl⟩⟩
+    · have hm := markLastNone_concat [] (wireOf t)
+      have hw : (if (wireOf t).line.newline = .crlf then (wireOf t).line.content ++ [CR] else (wireOf t).line.content)
+          = t.line.content := (Unified.wireOK_wire t.line).2.2 h
+      rw [hw] at hm
+      simp only [List.nil_append] at hm
+      have hl : lastNone [t] = true := by simp [lastNone, h]
+      unfold readBack
+      rw [hl, if_pos rfl, List.map_cons, List.map_nil, hm]
+      rcases t with ⟨op, ⟨c, nl⟩⟩
       simp only at h
       subst h
-      simp [readBack, lastNone, markLastNone, wireOf]
+      rfl
     · simp [readBack, lastNone, h, wireOf_of_ne_none t h]
   | t :: u :: r, h => by
     obtain ⟨h1, h2⟩ := h
@@ -1317,7 +1376,7 @@ theorem halfOp_ne_NL {op : UInt8} (h : HalfOp op) : op ≠ NL := by
   rcases h with h | h | h | h <;> rw [h] <;> decide
 
 theorem plain_halvesTexts (O N : List PatchLine) (oR nR : Range) (hoR : RangeOK oR) (hnR : RangeOK nR)
-    (hO : ∀ l ∈ O, HalfOp l.op ∧ plainLine l.line = true) (hN : ∀ l ∈ N, HalfOp l.op ∧ plainLine l.line = true) :
+    (hO : ∀ l ∈ O, HalfOp l.op ∧ Unified.okLine l.line = true) (hN : ∀ l ∈ N, HalfOp l.op ∧ Unified.okLine l.line = true) :
     ∀ t ∈ halvesTexts O oR N nR, PlainL t := by
   intro t ht
   unfold halvesTexts at ht
@@ -1404,6 +1463,15 @@ theorem writable_spec (h : Hunk) (hw : h.writable = true) :
   · exact Or.inr (Or.inl h)
   · exact Or.inr (Or.inr h)
 
+/-- what `writableCR` says (`writable_spec` with `Unified.okLine` in place of `plainLine`) -/
+theorem writableCR_spec (h : Hunk) (hw : Unified.writableCR h = true) :
+    (∀ pl ∈ h.lines, pl.op = SP ∨ pl.op = PLUS ∨ pl.op = MINUS) ∧
+    h.old.count = ((oldOf h.lines).length : Int) ∧ h.new.count = ((newOf h.lines).length : Int) ∧
+    h.lines ≠ [] ∧ (∀ pl ∈ h.lines, Unified.okLine pl.line = true) ∧ noNlOnlyLast h.lines = true ∧
+    0 ≤ h.old.start ∧ 0 ≤ h.new.start ∧ h.old.start + h.old.count ≤ i64Max / 4 ∧ h.new.start + h.new.count ≤ i64Max / 4 := by
+  obtain ⟨⟨h1, h2, h3, h4, h6, h7, h8, h9, h10⟩, h5⟩ := Unified.writableCR_spec h hw
+  exact ⟨h1, h2, h3, h4, h5, h6, h7, h8, h9, h10⟩
+
 /-- the final state of the writer's loop and the text it writes -/
 theorem writeHunkContext_texts (h : Hunk) (hops : ∀ pl ∈ h.lines, pl.op = SP ∨ pl.op = PLUS ∨ pl.op = MINUS)
     (b : Bytes) (hb : writeHunkContext h = .ok b) :
@@ -1449,9 +1517,9 @@ def HunkRT (ts : List Line) (h : Hunk) : Prop :=
 theorem range_eta (r : Range) (c : Int) (h : r.count = c) : (⟨r.start, c⟩ : Range) = r := by
   cases r; simp at h; simp [h]
 
-theorem hunk_roundtrip (NR : NumberRoundtrip) (h : Hunk) (hw : h.writable = true) (b : Bytes)
+theorem hunk_roundtrip (NR : NumberRoundtrip) (h : Hunk) (hw : Unified.writableCR h = true) (b : Bytes)
     (hb : writeHunkContext h = .ok b) : ∃ ts, b = unlines ts ∧ HunkRT ts h := by
-  obtain ⟨hops, hoc, hnc, hne, hplain, hnl, hos, hns, hob, hnb⟩ := writable_spec h hw
+  obtain ⟨hops, hoc, hnc, hne, hplain, hnl, hos, hns, hob, hnb⟩ := writableCR_spec h hw
   obtain ⟨s, hi, rfl⟩ := writeHunkContext_texts h hops b hb
   have hoR : RangeOK h.old := ⟨hos, by omega, hob⟩
   have hnR : RangeOK h.new := ⟨hns, by omega, hnb⟩
@@ -1459,13 +1527,13 @@ theorem hunk_roundtrip (NR : NumberRoundtrip) (h : Hunk) (hw : h.writable = true
   have hNl : s.newLines.length = (newOf h.lines).length := by rw [← hi.newLine, List.length_map]
   have hoc' : h.old.count = (s.oldLines.length : Int) := by rw [hOl]; exact hoc
   have hnc' : h.new.count = (s.newLines.length : Int) := by rw [hNl]; exact hnc
-  have hOp : ∀ l ∈ s.oldLines, HalfOp l.op ∧ plainLine l.line = true := by
+  have hOp : ∀ l ∈ s.oldLines, HalfOp l.op ∧ Unified.okLine l.line = true := by
     intro l hl
     refine ⟨halfOp_of_oldOps hi.oldOps l hl, ?_⟩
     have : l.line ∈ oldOf h.lines := by rw [← hi.oldLine]; exact List.mem_map.mpr ⟨l, hl, rfl⟩
     obtain ⟨pl, hpl, he⟩ := mem_oldOf_line this
     rw [← he]; exact hplain pl hpl
-  have hNp : ∀ l ∈ s.newLines, HalfOp l.op ∧ plainLine l.line = true := by
+  have hNp : ∀ l ∈ s.newLines, HalfOp l.op ∧ Unified.okLine l.line = true := by
     intro l hl
     refine ⟨halfOp_of_newOps hi.newOps l hl, ?_⟩
     have : l.line ∈ newOf h.lines := by rw [← hi.newLine]; exact List.mem_map.mpr ⟨l, hl, rfl⟩
@@ -1593,7 +1661,7 @@ def bodyTexts : List (List Line) → List Line
   | [ts] => ts
   | ts :: ts' :: rest => ts ++ lfLine starsText :: bodyTexts (ts' :: rest)
 
-theorem ctxRejectBody_texts (NR : NumberRoundtrip) : ∀ (hs : List Hunk), (∀ h ∈ hs, h.writable = true) →
+theorem ctxRejectBody_texts (NR : NumberRoundtrip) : ∀ (hs : List Hunk), (∀ h ∈ hs, Unified.writableCR h = true) →
     ∀ bytes, ctxRejectBody hs = .ok bytes →
     ∃ tss, Forall2 HunkRT tss hs ∧ bytes = unlines (bodyTexts tss) := by
   intro hs
@@ -1753,8 +1821,8 @@ theorem parseBody_rt : ∀ (tss : List (List Line)) (hs : List Hunk), Forall2 Hu
     none) of every line — and the same ranges.  (The interleaving of '-' and '+' lines is not in the text of a context
     diff.)  Statement strengthened with the model: the writer now keeps CR LF; before, the sides came back with the LF/CRLF
     class forgotten (`sameChange`, see `context_roundtrip_of`). -/
-theorem context_roundtrip_exact_of (NR : NumberRoundtrip) (hs : List Hunk) (hne : hs ≠ [])
-    (hw : ∀ h ∈ hs, h.writable = true) (bytes : Bytes) (hb : ctxRejectBody hs = .ok bytes)
+theorem context_roundtrip_exact_cr_of (NR : NumberRoundtrip) (hs : List Hunk) (hne : hs ≠ [])
+    (hw : ∀ h ∈ hs, Unified.writableCR h = true) (bytes : Bytes) (hb : ctxRejectBody hs = .ok bytes)
     (lineNo : Nat) (fuel : Nat) (hf : hs.length < fuel) :
     ∃ hs' par', parseContextBody fuel { s := { rest := splitLines bytes }, lineNo := lineNo } [] = .ok (hs', par') ∧
       hs'.length = hs.length ∧
@@ -1775,6 +1843,17 @@ theorem context_roundtrip_exact_of (NR : NumberRoundtrip) (hs : List Hunk) (hne 
   obtain ⟨hs', par', hp, hfs, hr⟩ := parseBody_rt tss hs hrt htne fuel [] lineNo [] hf (.inl rfl)
   refine ⟨hs', par', ?_, hfs.length_eq, fun i hi hi' => hfs.get i hi' hi, hr⟩
   simpa [mkPar] using hp
+
+/-- the exact round trip for `writable` hunks (no line ends in CR): the special case of `context_roundtrip_exact_cr_of`, which
+    also covers a last line that ends in a bare CR -/
+theorem context_roundtrip_exact_of (NR : NumberRoundtrip) (hs : List Hunk) (hne : hs ≠ [])
+    (hw : ∀ h ∈ hs, h.writable = true) (bytes : Bytes) (hb : ctxRejectBody hs = .ok bytes)
+    (lineNo : Nat) (fuel : Nat) (hf : hs.length < fuel) :
+    ∃ hs' par', parseContextBody fuel { s := { rest := splitLines bytes }, lineNo := lineNo } [] = .ok (hs', par') ∧
+      hs'.length = hs.length ∧
+      (∀ i (hi : i < hs.length) (hi' : i < hs'.length), sameSides hs'[i] hs[i]) ∧
+      par'.s.rest = [] :=
+  context_roundtrip_exact_cr_of NR hs hne (fun h hh => Unified.writableCR_of_writable (hw h hh)) bytes hb lineNo fuel hf
 
 /-- the context round trip in its old form (LF/CRLF class forgotten): a consequence of the exact one -/
 theorem context_roundtrip_of (NR : NumberRoundtrip) (hs : List Hunk) (hne : hs ≠ [])
